@@ -349,9 +349,12 @@ func ppValue(v slip.Object) (pv slip.Object) {
 }
 
 func ppInstance(inst *flavors.Instance) slip.Object {
-	vars := inst.AllVars()
-	names := make([]string, 0, len(vars)-1)
-	for name := range vars {
+	// Only the variables the flavor declares. The scope of an instance can
+	// hold more, a parent scope or the slots of a condition raised by a
+	// failed send which include the instance itself.
+	vars := inst.Type.VarNames()
+	names := make([]string, 0, len(vars))
+	for _, name := range vars {
 		if name != "self" {
 			names = append(names, name)
 		}
